@@ -26,9 +26,11 @@ pub fn corr(run: &mut Run) {
         .to_owned();
     let mut rng = run.rng("corr");
     let n = run.tier.scale(140, 1500);
-    for it in 0..n {
-        let heavy = it % 12 == 0;
-        let fam = match catch(|| gen_family(&mut rng, heavy)) {
+    let jts = [ciphercore_base::graphs::JoinType::Inner, ciphercore_base::graphs::JoinType::Left, ciphercore_base::graphs::JoinType::Union, ciphercore_base::graphs::JoinType::Full];
+    let n_heavy = run.tier.scale(6, 40);
+    for it in 0..(n + n_heavy) {
+        let heavy = it % 12 == 0 || it < n_heavy;
+        let fam = match catch(|| if it < n_heavy { if it % 6 < 4 { join_family(&mut rng, &jts[it % 6..it % 6 + 1]) } else { sort_family(&mut rng) } } else { gen_family(&mut rng, heavy) }) {
             Ok(Ok(f)) => f,
             _ => {
                 run.count("gen:failed");
